@@ -14,6 +14,9 @@ import sys
 import tempfile
 
 PY = '/venv/bin/python'
+# the tools evaluate the tree they live in (so that a frozen copy of /verif and of /repo can be evaluated while work goes on)
+VERIF_ROOT = os.path.dirname(os.path.dirname(os.path.abspath(__file__)))
+SRC_REPO = os.environ.get('NV_SRC_REPO', '/repo')
 
 
 def sh(cmd, cwd=None, env=None, timeout=3600):
@@ -31,7 +34,7 @@ def main():
     ap.add_argument('--no-save', action='store_true')
     a = ap.parse_args()
     src = a.src or '/tmp/wt/%s/_seeded/%s' % (a.prop, a.which)
-    dst = '/verif/seeded/%s-%s' % (a.prop, a.which)
+    dst = VERIF_ROOT + '/seeded/%s-%s' % (a.prop, a.which)
     if not os.path.exists(os.path.join(src, 'patch.diff')) and os.path.exists(os.path.join(dst, 'patch.diff')):
         src = dst
     patch = os.path.join(src, 'patch.diff')
@@ -39,7 +42,7 @@ def main():
     d = tempfile.mkdtemp(prefix='nvseed.')
     meta = {'property': a.prop, 'variant': a.which, 'source': 'independent sub-agent given only the property text and a scratch worktree'}
     try:
-        sh('rsync -a --exclude .git --exclude "*.egg-info" --exclude __pycache__ --exclude _seeded /repo/ %s/' % d)
+        sh('rsync -a --exclude .git --exclude "*.egg-info" --exclude __pycache__ --exclude _seeded %s/ %s/' % (SRC_REPO, d))
         env = dict(os.environ, PYTHONPATH=d, PYTHONDONTWRITEBYTECODE='1')
         rc0, out0 = sh([PY, demo, d], cwd=d, env=env)
         meta['demo_on_unchanged_tree'] = {'exit': rc0}
@@ -54,7 +57,7 @@ def main():
         checks = {}
         for cid in [a.prop] + [c for c in a.extra.split(',') if c]:
             envc = dict(os.environ, NV_REPO=d)
-            rcc, outc = sh(['./check', cid, '--tier', a.tier], cwd='/verif', env=envc)
+            rcc, outc = sh(['./check', cid, '--tier', a.tier], cwd=VERIF_ROOT, env=envc)
             keys = [l.strip() for l in outc.split('\n') if l.strip().startswith('key=')]
             checks[cid] = {'tier': a.tier, 'exit': rcc, 'violation_keys': [k[:240] for k in keys[:6]]}
         meta['checks'] = checks
